@@ -937,3 +937,54 @@ def c02_r4(ctx):
     cond = [n for n in walk_no_nested(gs.node) if isinstance(n, ast.If) and any(isinstance(x, ast.For) for x in n.body)]
     ctx.check(all(norm(n.test) == "self._fragments_used_as_mixins or self._unpacked_fragments" for n in cond), key(gs, "fragment condition"),
               f"fragment definitions are appended under `{[norm(n.test) for n in cond]}`", gs.loc(), okmsg="definitions appended whenever a fragment is used as mixin or unpacked")
+
+
+@rule("C01.R11", "inline fragments of an abstract field are collected through fragment spreads at every depth", min_instances=3, also=["C05", "C08"])
+def c01_r11(ctx):
+    repo = ctx.repo
+    fi = repo.func("client_generators.result_fields:get_inline_fragments_from_selection_set")
+    el = None
+
+    def mk(kind):
+        def atom(e):
+            ee = strip_pre(e)
+            t = norm(ee)
+            if t in ("selection_set", "selection_set is not None"):
+                return True
+            if isinstance(ee, ast.Call) and is_name(ee.func, "isinstance") and len(ee.args) == 2 and norm(ee.args[0]).startswith("<elem>("):
+                k = norm(ee.args[1])
+                if k in ("InlineFragmentNode", "FragmentSpreadNode", "FieldNode"):
+                    return k == kind
+            return None
+        return atom
+
+    def contributions(kind):
+        outs = [o for o in Interp(fi, mk(kind)).run() if o.kind == "return" and any("loop body once" in t for t in o.trace)]
+        if len(outs) != 1 or o_name(outs[0]) is None:
+            return None
+        o = outs[0]
+        return [norm(strip_pre(m)) for m in o.muts(o_name(o))], o
+
+    def o_name(o):
+        return o.value.id if isinstance(o.value, ast.Name) else None
+    r = contributions("InlineFragmentNode")
+    if r is None:
+        raise AnalysisError("get_inline_fragments_from_selection_set: the accumulating loop over the selections was not recognised")
+    muts, o = r
+    name = o_name(o)
+    elem = next((m[len(name) + len(".append("):-1] for m in muts if m.startswith(f"{name}.append(")), None)
+    ctx.check(len(muts) == 1 and elem is not None and elem.startswith("<elem>(selection_set.selections"), key(fi, "inline"), f"an inline fragment of the selection set must be collected itself; contributions: {muts}", fi.loc(),
+              okmsg="inline fragment -> collected")
+    r = contributions("FragmentSpreadNode")
+    muts = r[0] if r else []
+    rec = [m for m in muts if f"{fi.node.name}(" in m]
+    good = len(muts) == 1 and len(rec) == 1 and ".name.value].selection_set" in rec[0] and "fragments_definitions" in rec[0]
+    ctx.check(good, key(fi, "spread"), f"a fragment spread must contribute the inline fragments of its definition's selection set *recursively* (a spread inside that fragment can carry inline fragments too); "
+              f"contributions: {muts}", fi.loc(), okmsg="spread -> recursive collection from the fragment definition")
+    r = contributions("FieldNode")
+    ctx.check(r is not None and r[0] == [], key(fi, "field"), f"a plain field must not contribute: {r[0] if r else None}", fi.loc(), okmsg="field -> nothing")
+    # the caller uses it for the field's own selection set
+    pi = repo.func("client_generators.result_fields:parse_interface_type")
+    cs = calls_named(pi.node, "get_inline_fragments_from_selection_set")
+    good = len(cs) == 1 and norm(argv(cs[0], 0, "selection_set") or ast.Constant(0)).endswith("field_node.selection_set") and "fragments_definitions" in norm(argv(cs[0], 1, "fragments_definitions") or ast.Constant(0))
+    ctx.check(good, key(pi, "caller"), "parse_interface_type does not collect the inline fragments of the field's own selection set", pi.loc(), okmsg="interface fields: inline fragments of the field's selection set")
